@@ -14,6 +14,7 @@ package main
 
 import (
 	"bufio"
+	"encoding/base64"
 	"encoding/json"
 	"errors"
 	"fmt"
@@ -414,7 +415,58 @@ func dumpCnr(db *meta.DB, c int) DCnr {
 	return res
 }
 
-func observe(db *meta.DB, es *epochState) *Obs {
+// selectIDs returns the ordered object IDs DB.Select reports. DB.Select asks DB.Search for
+// math.MaxUint16 items per call, and the unfiltered search zeroes a result buffer of that size
+// (3.6 MB) on every call, which was 60% of the harness CPU time. With viaSelect=false the same
+// loop as in DB.Select (PreprocessSearchQuery -> DB.Search -> cursor) is run with a page of
+// selectPage items; the last observation of every history goes through DB.Select itself and
+// both ways are compared there.
+const selectPage = 8
+
+func selectIDs(db *meta.DB, c int, fs object.SearchFilters, viaSelect bool) []int {
+	ids := []int{}
+	if viaSelect {
+		addrs, err := db.Select(mkCID(c), fs)
+		must(err)
+		for _, a := range addrs {
+			ids = append(ids, unOID(a.Object()))
+		}
+		return ids
+	}
+	var attrs []string
+	if len(fs) > 0 {
+		attrs = append(attrs, fs[0].Header())
+	}
+	cursor := ""
+	for n := 0; n < 1000; n++ {
+		ofs, cur, err := objectcore.PreprocessSearchQuery(fs, attrs, cursor)
+		must(err)
+		res, newCursor, err := db.Search(mkCID(c), ofs, attrs, cur, selectPage)
+		must(err)
+		for i := range res {
+			ids = append(ids, unOID(res[i].ID))
+		}
+		if len(newCursor) == 0 {
+			break
+		}
+		cursor = base64.StdEncoding.EncodeToString(newCursor)
+	}
+	return ids
+}
+
+func sameInts(a, b []int) bool {
+	if len(a) != len(b) {
+		return false
+	}
+	for i := range a {
+		if a[i] != b[i] {
+			return false
+		}
+	}
+	return true
+}
+
+func observe(db *meta.DB, es *epochState, viaSelect bool) *Obs {
 	o := &Obs{Epoch: es.CurrentEpoch()}
 	tot, err := db.ObjectCounters()
 	must(err)
@@ -473,22 +525,13 @@ func observe(db *meta.DB, es *epochState) *Obs {
 		o.Locked = append(o.Locked, lk)
 		o.EC = append(o.EC, ecs)
 
-		ids := []int{}
-		addrs, err := db.Select(mkCID(c), nil)
-		must(err)
-		for _, a := range addrs {
-			ids = append(ids, unOID(a.Object()))
-		}
-		o.Search = append(o.Search, ids)
 		var fs object.SearchFilters
 		fs.AddRootFilter()
-		ids = []int{}
-		addrs, err = db.Select(mkCID(c), fs)
-		must(err)
-		for _, a := range addrs {
-			ids = append(ids, unOID(a.Object()))
+		o.Search = append(o.Search, selectIDs(db, c, nil, viaSelect))
+		o.SearchR = append(o.SearchR, selectIDs(db, c, fs, viaSelect))
+		if viaSelect && (!sameInts(o.Search[c-1], selectIDs(db, c, nil, false)) || !sameInts(o.SearchR[c-1], selectIDs(db, c, fs, false))) {
+			o.Cnrs[c-1].Bad++ // DB.Select and the paged DB.Search loop disagree
 		}
-		o.SearchR = append(o.SearchR, ids)
 	}
 	// listing
 	o.List = [][3]int{}
@@ -637,7 +680,7 @@ func runHistory(i int, ops []Op, every int) History {
 	for k, op := range ops {
 		st := Step{Res: apply(db, es, op)}
 		if every <= 1 || (k+1)%every == 0 || k == len(ops)-1 {
-			st.Obs = observe(db, es)
+			st.Obs = observe(db, es, k == len(ops)-1)
 		}
 		h.Steps = append(h.Steps, st)
 	}
